@@ -26,7 +26,16 @@ use tokio::io::{AsyncReadExt, AsyncWriteExt};
 use tokio::net::{TcpListener, TcpStream};
 
 const P: &str = "C02";
-const PTYPES: [PType; 8] = [PType::Binary, PType::DoubleBit, PType::BinaryOutputStatus, PType::Counter, PType::FrozenCounter, PType::Analog, PType::AnalogOutputStatus, PType::OctetString];
+const PTYPES: [PType; 8] = [
+    PType::Binary,
+    PType::DoubleBit,
+    PType::BinaryOutputStatus,
+    PType::Counter,
+    PType::FrozenCounter,
+    PType::Analog,
+    PType::AnalogOutputStatus,
+    PType::OctetString,
+];
 const NPOINTS: u16 = 3;
 
 #[derive(Clone, Debug, PartialEq)]
@@ -53,14 +62,35 @@ struct Ledger {
 type Shared = Arc<Mutex<Ledger>>;
 
 /// write a fresh unique value for point (t, i) inside the caller's transaction; ledger and database change together
-fn write_point(db: &mut Database, led: &mut Ledger, r: &mut Rng, t: usize, i: u16, forced: Option<f64>, static_only: bool) {
+fn write_point(
+    db: &mut Database,
+    led: &mut Ledger,
+    r: &mut Rng,
+    t: usize,
+    i: u16,
+    forced: Option<f64>,
+    static_only: bool,
+) {
     led.counter += 1;
     let c = led.counter;
     let time = 1_000_000 + c;
-    let raw_flags: u8 = if r.chance(2, 3) { 0x01 } else { 0x01 | (r.u8() & 0x1E) };
+    let raw_flags: u8 = if r.chance(2, 3) {
+        0x01
+    } else {
+        0x01 | (r.u8() & 0x1E)
+    };
     let tm = Time::synchronized(time);
-    let opt = if static_only { UpdateOptions::no_event() } else { UpdateOptions::new(true, EventMode::Force) };
-    let mut h = Hist { num: 0.0, bytes: vec![], flags: raw_flags, time };
+    let opt = if static_only {
+        UpdateOptions::no_event()
+    } else {
+        UpdateOptions::new(true, EventMode::Force)
+    };
+    let mut h = Hist {
+        num: 0.0,
+        bytes: vec![],
+        flags: raw_flags,
+        time,
+    };
     let info = match t {
         0 => {
             let v = forced.map(|x| x != 0.0).unwrap_or(c % 2 == 0);
@@ -72,14 +102,27 @@ fn write_point(db: &mut Database, led: &mut Ledger, r: &mut Rng, t: usize, i: u1
             let v = (c % 4) as u8;
             h.num = v as f64;
             h.flags = (raw_flags & 0x3F) | (v << 6);
-            let d = [DoubleBit::Intermediate, DoubleBit::DeterminedOff, DoubleBit::DeterminedOn, DoubleBit::Indeterminate][v as usize];
-            db.update2(i, &DoubleBitBinaryInput::new(d, Flags::new(raw_flags), tm), opt)
+            let d = [
+                DoubleBit::Intermediate,
+                DoubleBit::DeterminedOff,
+                DoubleBit::DeterminedOn,
+                DoubleBit::Indeterminate,
+            ][v as usize];
+            db.update2(
+                i,
+                &DoubleBitBinaryInput::new(d, Flags::new(raw_flags), tm),
+                opt,
+            )
         }
         2 => {
             let v = forced.map(|x| x != 0.0).unwrap_or(c % 2 == 1);
             h.num = v as u8 as f64;
             h.flags = (raw_flags & 0x7F) | ((v as u8) << 7);
-            db.update2(i, &BinaryOutputStatus::new(v, Flags::new(raw_flags), tm), opt)
+            db.update2(
+                i,
+                &BinaryOutputStatus::new(v, Flags::new(raw_flags), tm),
+                opt,
+            )
         }
         3 => {
             h.num = c as u32 as f64;
@@ -87,7 +130,11 @@ fn write_point(db: &mut Database, led: &mut Ledger, r: &mut Rng, t: usize, i: u1
         }
         4 => {
             h.num = c as u32 as f64;
-            db.update2(i, &FrozenCounter::new(c as u32, Flags::new(raw_flags), tm), opt)
+            db.update2(
+                i,
+                &FrozenCounter::new(c as u32, Flags::new(raw_flags), tm),
+                opt,
+            )
         }
         5 => {
             h.num = c as f64 + 0.25;
@@ -95,7 +142,11 @@ fn write_point(db: &mut Database, led: &mut Ledger, r: &mut Rng, t: usize, i: u1
         }
         6 => {
             h.num = forced.unwrap_or(c as f64 + 0.5);
-            db.update2(i, &AnalogOutputStatus::new(h.num, Flags::new(raw_flags), tm), opt)
+            db.update2(
+                i,
+                &AnalogOutputStatus::new(h.num, Flags::new(raw_flags), tm),
+                opt,
+            )
         }
         _ => {
             let mut b = c.to_le_bytes().to_vec();
@@ -134,7 +185,13 @@ struct Controls {
 }
 impl ControlHandler for Controls {}
 impl Controls {
-    fn apply(&mut self, t: usize, index: u16, value: f64, db: &mut DatabaseHandle) -> CommandStatus {
+    fn apply(
+        &mut self,
+        t: usize,
+        index: u16,
+        value: f64,
+        db: &mut DatabaseHandle,
+    ) -> CommandStatus {
         if index >= NPOINTS {
             return CommandStatus::NotSupported;
         }
@@ -157,7 +214,13 @@ impl ControlSupport<Group12Var1> for Controls {
             CommandStatus::NotSupported
         }
     }
-    fn operate(&mut self, c: Group12Var1, index: u16, _t: OperateType, db: &mut DatabaseHandle) -> CommandStatus {
+    fn operate(
+        &mut self,
+        c: Group12Var1,
+        index: u16,
+        _t: OperateType,
+        db: &mut DatabaseHandle,
+    ) -> CommandStatus {
         let on = matches!(c.code.op_type, OpType::LatchOn | OpType::PulseOn);
         self.apply(2, index, on as u8 as f64, db)
     }
@@ -172,7 +235,13 @@ macro_rules! analog_support {
                     CommandStatus::NotSupported
                 }
             }
-            fn operate(&mut self, c: $t, index: u16, _t: OperateType, db: &mut DatabaseHandle) -> CommandStatus {
+            fn operate(
+                &mut self,
+                c: $t,
+                index: u16,
+                _t: OperateType,
+                db: &mut DatabaseHandle,
+            ) -> CommandStatus {
                 let f: fn($t) -> f64 = $conv;
                 self.apply(6, index, f(c), db)
             }
@@ -207,7 +276,13 @@ struct ProxyCtl {
     refusal_periods: u64,
 }
 
-async fn pump(mut rd: tokio::net::tcp::OwnedReadHalf, mut wr: tokio::net::tcp::OwnedWriteHalf, ctl: Arc<Mutex<ProxyCtl>>, dead: Arc<AtomicBool>, mut rng: Rng) {
+async fn pump(
+    mut rd: tokio::net::tcp::OwnedReadHalf,
+    mut wr: tokio::net::tcp::OwnedWriteHalf,
+    ctl: Arc<Mutex<ProxyCtl>>,
+    dead: Arc<AtomicBool>,
+    mut rng: Rng,
+) {
     let mut buf = vec![0u8; 4096];
     loop {
         if dead.load(Ordering::SeqCst) {
@@ -215,7 +290,10 @@ async fn pump(mut rd: tokio::net::tcp::OwnedReadHalf, mut wr: tokio::net::tcp::O
         }
         {
             let mut g = ctl.lock().unwrap();
-            let blackout = g.blackout_until.map(|t| Instant::now() < t).unwrap_or(false);
+            let blackout = g
+                .blackout_until
+                .map(|t| Instant::now() < t)
+                .unwrap_or(false);
             if g.kill_now || blackout {
                 g.kill_now = false;
                 g.cuts += 1;
@@ -272,7 +350,13 @@ async fn pump(mut rd: tokio::net::tcp::OwnedReadHalf, mut wr: tokio::net::tcp::O
     dead.store(true, Ordering::SeqCst);
 }
 
-async fn proxy(listener: TcpListener, upstream: std::net::SocketAddr, ctl: Arc<Mutex<ProxyCtl>>, stop: Arc<AtomicBool>, seed: u64) {
+async fn proxy(
+    listener: TcpListener,
+    upstream: std::net::SocketAddr,
+    ctl: Arc<Mutex<ProxyCtl>>,
+    stop: Arc<AtomicBool>,
+    seed: u64,
+) {
     let mut n = 0u64;
     let port = listener.local_addr().map(|a| a.port()).unwrap_or(0);
     let mut listener = Some(listener);
@@ -298,16 +382,28 @@ async fn proxy(listener: TcpListener, upstream: std::net::SocketAddr, ctl: Arc<M
                 }
             }
         }
-        let acc = tokio::time::timeout(Duration::from_millis(50), listener.as_ref().unwrap().accept()).await;
+        let acc = tokio::time::timeout(
+            Duration::from_millis(50),
+            listener.as_ref().unwrap().accept(),
+        )
+        .await;
         if stop.load(Ordering::SeqCst) {
             break;
         }
         let Ok(Ok((down, _))) = acc else { continue };
-        if ctl.lock().unwrap().blackout_until.map(|t| Instant::now() < t).unwrap_or(false) {
+        if ctl
+            .lock()
+            .unwrap()
+            .blackout_until
+            .map(|t| Instant::now() < t)
+            .unwrap_or(false)
+        {
             drop(down);
             continue;
         }
-        let Ok(up) = TcpStream::connect(upstream).await else { continue };
+        let Ok(up) = TcpStream::connect(upstream).await else {
+            continue;
+        };
         let _ = down.set_nodelay(true);
         let _ = up.set_nodelay(true);
         ctl.lock().unwrap().connections += 1;
@@ -315,8 +411,20 @@ async fn proxy(listener: TcpListener, upstream: std::net::SocketAddr, ctl: Arc<M
         let dead = Arc::new(AtomicBool::new(false));
         let (dr, dw) = down.into_split();
         let (ur, uw) = up.into_split();
-        let a = tokio::spawn(pump(dr, uw, ctl.clone(), dead.clone(), Rng::new(seed ^ (n << 8) ^ 1)));
-        let b = tokio::spawn(pump(ur, dw, ctl.clone(), dead.clone(), Rng::new(seed ^ (n << 8) ^ 2)));
+        let a = tokio::spawn(pump(
+            dr,
+            uw,
+            ctl.clone(),
+            dead.clone(),
+            Rng::new(seed ^ (n << 8) ^ 1),
+        ));
+        let b = tokio::spawn(pump(
+            ur,
+            dw,
+            ctl.clone(),
+            dead.clone(),
+            Rng::new(seed ^ (n << 8) ^ 2),
+        ));
         // one connection at a time is enough for one master
         let _ = a.await;
         let _ = b.await;
@@ -354,7 +462,11 @@ async fn scenario(a: &ShardArgs, idx: u64) {
     let mut r = a.rng(&format!("c02/{idx}"));
     let unsol = r.bool();
     let small = r.chance(1, 3);
-    let mode = if r.bool() { LinkErrorMode::Close } else { LinkErrorMode::Discard };
+    let mode = if r.bool() {
+        LinkErrorMode::Close
+    } else {
+        LinkErrorMode::Discard
+    };
     let evbuf: u16 = if r.chance(1, 3) { 4 } else { 250 };
     let periodic = !unsol || r.bool();
     // some updates change the static value without producing an event
@@ -365,7 +477,11 @@ async fn scenario(a: &ShardArgs, idx: u64) {
     let out_addr = EndpointAddress::try_new(1024).unwrap();
     let master_addr = EndpointAddress::try_new(1).unwrap();
     let mut oc = OutstationConfig::new(out_addr, master_addr, EventBufferConfig::all_types(evbuf));
-    oc.features.unsolicited = if unsol { Feature::Enabled } else { Feature::Disabled };
+    oc.features.unsolicited = if unsol {
+        Feature::Enabled
+    } else {
+        Feature::Disabled
+    };
     oc.confirm_timeout = Timeout::from_millis(500).unwrap();
     oc.unsolicited_retry_delay = Duration::from_millis(100);
     oc.class_zero.octet_string = true;
@@ -375,7 +491,17 @@ async fn scenario(a: &ShardArgs, idx: u64) {
     }
     oc.keep_alive_timeout = Some(Duration::from_millis(700));
     let mut server = Server::new_tcp_server(mode, "127.0.0.1:0".parse().unwrap());
-    let outstation = match server.add_outstation(oc, Box::new(App), Box::new(Info), Box::new(Controls { led: led.clone(), rng: r.fork() }), NullListener::create(), AddressFilter::Any) {
+    let outstation = match server.add_outstation(
+        oc,
+        Box::new(App),
+        Box::new(Info),
+        Box::new(Controls {
+            led: led.clone(),
+            rng: r.fork(),
+        }),
+        NullListener::create(),
+        AddressFilter::Any,
+    ) {
         Ok(x) => x,
         Err(e) => {
             out::note(format!("add_outstation failed: {e:?}"));
@@ -388,14 +514,72 @@ async fn scenario(a: &ShardArgs, idx: u64) {
         let led = led.clone();
         outstation.transaction(|db| {
             for i in 0..NPOINTS {
-                let cls = |k: u16| Some([EventClass::Class1, EventClass::Class2, EventClass::Class3][((i + k) % 3) as usize]);
-                db.add(i, cls(0), BinaryInputConfig::new(StaticBinaryInputVariation::Group1Var2, EventBinaryInputVariation::Group2Var2));
-                db.add(i, cls(1), DoubleBitBinaryInputConfig::new(StaticDoubleBitBinaryInputVariation::Group3Var2, EventDoubleBitBinaryInputVariation::Group4Var2));
-                db.add(i, cls(2), BinaryOutputStatusConfig::new(StaticBinaryOutputStatusVariation::Group10Var2, EventBinaryOutputStatusVariation::Group11Var2));
-                db.add(i, cls(0), CounterConfig::new(StaticCounterVariation::Group20Var1, EventCounterVariation::Group22Var5, 0));
-                db.add(i, cls(1), FrozenCounterConfig::new(StaticFrozenCounterVariation::Group21Var5, EventFrozenCounterVariation::Group23Var5, 0));
-                db.add(i, cls(2), AnalogInputConfig::new(StaticAnalogInputVariation::Group30Var6, EventAnalogInputVariation::Group32Var8, 0.0));
-                db.add(i, cls(0), AnalogOutputStatusConfig::new(StaticAnalogOutputStatusVariation::Group40Var4, EventAnalogOutputStatusVariation::Group42Var8, 0.0));
+                let cls = |k: u16| {
+                    Some(
+                        [EventClass::Class1, EventClass::Class2, EventClass::Class3]
+                            [((i + k) % 3) as usize],
+                    )
+                };
+                db.add(
+                    i,
+                    cls(0),
+                    BinaryInputConfig::new(
+                        StaticBinaryInputVariation::Group1Var2,
+                        EventBinaryInputVariation::Group2Var2,
+                    ),
+                );
+                db.add(
+                    i,
+                    cls(1),
+                    DoubleBitBinaryInputConfig::new(
+                        StaticDoubleBitBinaryInputVariation::Group3Var2,
+                        EventDoubleBitBinaryInputVariation::Group4Var2,
+                    ),
+                );
+                db.add(
+                    i,
+                    cls(2),
+                    BinaryOutputStatusConfig::new(
+                        StaticBinaryOutputStatusVariation::Group10Var2,
+                        EventBinaryOutputStatusVariation::Group11Var2,
+                    ),
+                );
+                db.add(
+                    i,
+                    cls(0),
+                    CounterConfig::new(
+                        StaticCounterVariation::Group20Var1,
+                        EventCounterVariation::Group22Var5,
+                        0,
+                    ),
+                );
+                db.add(
+                    i,
+                    cls(1),
+                    FrozenCounterConfig::new(
+                        StaticFrozenCounterVariation::Group21Var5,
+                        EventFrozenCounterVariation::Group23Var5,
+                        0,
+                    ),
+                );
+                db.add(
+                    i,
+                    cls(2),
+                    AnalogInputConfig::new(
+                        StaticAnalogInputVariation::Group30Var6,
+                        EventAnalogInputVariation::Group32Var8,
+                        0.0,
+                    ),
+                );
+                db.add(
+                    i,
+                    cls(0),
+                    AnalogOutputStatusConfig::new(
+                        StaticAnalogOutputStatusVariation::Group40Var4,
+                        EventAnalogOutputStatusVariation::Group42Var8,
+                        0.0,
+                    ),
+                );
                 db.add(i, cls(1), OctetStringConfig);
             }
             let mut g = led.lock().unwrap();
@@ -424,22 +608,64 @@ async fn scenario(a: &ShardArgs, idx: u64) {
         }
     };
     let proxy_port = listener.local_addr().unwrap().port();
-    let ctl = Arc::new(Mutex::new(ProxyCtl { chunk: r.below(4) as u8, ..Default::default() }));
+    let ctl = Arc::new(Mutex::new(ProxyCtl {
+        chunk: r.below(4) as u8,
+        ..Default::default()
+    }));
     let stop = Arc::new(AtomicBool::new(false));
-    let pj = tokio::spawn(proxy(listener, format!("127.0.0.1:{out_port}").parse().unwrap(), ctl.clone(), stop.clone(), r.u64()));
+    let pj = tokio::spawn(proxy(
+        listener,
+        format!("127.0.0.1:{out_port}").parse().unwrap(),
+        ctl.clone(),
+        stop.clone(),
+        r.u64(),
+    ));
     // ---- master
     let mut mcfg = MasterChannelConfig::new(master_addr);
     if small {
         mcfg.tx_buffer_size = BufferSize::min();
     }
-    let mut master = spawn_master_tcp_client(mode, mcfg, EndpointList::single(format!("127.0.0.1:{proxy_port}")), ConnectStrategy::new(Duration::from_millis(20), Duration::from_millis(100), Duration::from_millis(20)), NullListener::create());
-    let mut acfg = AssociationConfig::new(if unsol { EventClasses::all() } else { EventClasses::none() }, if unsol { EventClasses::all() } else { EventClasses::none() }, Classes::all(), EventClasses::none());
+    let mut master = spawn_master_tcp_client(
+        mode,
+        mcfg,
+        EndpointList::single(format!("127.0.0.1:{proxy_port}")),
+        ConnectStrategy::new(
+            Duration::from_millis(20),
+            Duration::from_millis(100),
+            Duration::from_millis(20),
+        ),
+        NullListener::create(),
+    );
+    let mut acfg = AssociationConfig::new(
+        if unsol {
+            EventClasses::all()
+        } else {
+            EventClasses::none()
+        },
+        if unsol {
+            EventClasses::all()
+        } else {
+            EventClasses::none()
+        },
+        Classes::all(),
+        EventClasses::none(),
+    );
     acfg.response_timeout = Timeout::from_millis(600).unwrap();
-    acfg.auto_tasks_retry_strategy = RetryStrategy::new(Duration::from_millis(50), Duration::from_millis(200));
+    acfg.auto_tasks_retry_strategy =
+        RetryStrategy::new(Duration::from_millis(50), Duration::from_millis(200));
     acfg.auto_integrity_scan_on_buffer_overflow = true;
     acfg.keep_alive_timeout = Some(Duration::from_millis(900));
     let rec = Recorder::new();
-    let mut assoc = match master.add_association(out_addr, acfg, Box::new(rec.clone()), Box::new(AssocH), Box::new(AssocI)).await {
+    let mut assoc = match master
+        .add_association(
+            out_addr,
+            acfg,
+            Box::new(rec.clone()),
+            Box::new(AssocH),
+            Box::new(AssocI),
+        )
+        .await
+    {
         Ok(x) => x,
         Err(_) => {
             out::count("harness_setup_failed", 1);
@@ -447,8 +673,18 @@ async fn scenario(a: &ShardArgs, idx: u64) {
         }
     };
     if periodic {
-        let _ = assoc.add_poll(ReadRequest::class_scan(Classes::new(false, EventClasses::all())), Duration::from_millis(120)).await;
-        let _ = assoc.add_poll(ReadRequest::class_scan(Classes::all()), Duration::from_millis(700)).await;
+        let _ = assoc
+            .add_poll(
+                ReadRequest::class_scan(Classes::new(false, EventClasses::all())),
+                Duration::from_millis(120),
+            )
+            .await;
+        let _ = assoc
+            .add_poll(
+                ReadRequest::class_scan(Classes::all()),
+                Duration::from_millis(700),
+            )
+            .await;
     }
     let _ = master.enable().await;
     // ---- stimulus: updater threads, commands, cuts
@@ -491,16 +727,34 @@ async fn scenario(a: &ShardArgs, idx: u64) {
             0 => {
                 let off = r.range(1, 400);
                 ctl.lock().unwrap().cut_in = Some(off);
-                hist.push(format!("+{}ms cut after {off} more bytes", t_stim.elapsed().as_millis()));
+                hist.push(format!(
+                    "+{}ms cut after {off} more bytes",
+                    t_stim.elapsed().as_millis()
+                ));
             }
             1 => {
                 let i = r.below(NPOINTS as u64 + 1) as u16;
                 let on = r.bool();
-                let hdr = CommandBuilder::single_header_u16(Group12Var1::from_op_type(if on { OpType::LatchOn } else { OpType::LatchOff }), i);
-                let mode = if r.bool() { CommandMode::SelectBeforeOperate } else { CommandMode::DirectOperate };
-                let res = tokio::time::timeout(Duration::from_secs(5), assoc.operate(mode, hdr)).await;
+                let hdr = CommandBuilder::single_header_u16(
+                    Group12Var1::from_op_type(if on {
+                        OpType::LatchOn
+                    } else {
+                        OpType::LatchOff
+                    }),
+                    i,
+                );
+                let mode = if r.bool() {
+                    CommandMode::SelectBeforeOperate
+                } else {
+                    CommandMode::DirectOperate
+                };
+                let res =
+                    tokio::time::timeout(Duration::from_secs(5), assoc.operate(mode, hdr)).await;
                 cmd_results.push(format!("{res:?}"));
-                hist.push(format!("+{}ms CROB index {i} on={on} -> {res:?}", t_stim.elapsed().as_millis()));
+                hist.push(format!(
+                    "+{}ms CROB index {i} on={on} -> {res:?}",
+                    t_stim.elapsed().as_millis()
+                ));
             }
             2 => {
                 let i = r.below(NPOINTS as u64) as u16;
@@ -508,9 +762,17 @@ async fn scenario(a: &ShardArgs, idx: u64) {
                 cmd_serial += 1;
                 let v = 5_000_000.0 + cmd_serial as f64;
                 let hdr = CommandBuilder::single_header_u16(Group41Var4::new(v), i);
-                let mode = if r.bool() { CommandMode::SelectBeforeOperate } else { CommandMode::DirectOperate };
-                let res = tokio::time::timeout(Duration::from_secs(5), assoc.operate(mode, hdr)).await;
-                hist.push(format!("+{}ms analog output index {i} = {v} ({mode:?}) -> {res:?}", t_stim.elapsed().as_millis()));
+                let mode = if r.bool() {
+                    CommandMode::SelectBeforeOperate
+                } else {
+                    CommandMode::DirectOperate
+                };
+                let res =
+                    tokio::time::timeout(Duration::from_secs(5), assoc.operate(mode, hdr)).await;
+                hist.push(format!(
+                    "+{}ms analog output index {i} = {v} ({mode:?}) -> {res:?}",
+                    t_stim.elapsed().as_millis()
+                ));
                 issued.push((i, v, matches!(res, Ok(Ok(())))));
             }
             3 => {
@@ -522,12 +784,19 @@ async fn scenario(a: &ShardArgs, idx: u64) {
                 g.listener_down_until = Some(Instant::now() + Duration::from_millis(ms));
                 g.kill_now = true;
                 drop(g);
-                hist.push(format!("+{}ms server unreachable for {ms} ms (connections refused)", t_stim.elapsed().as_millis()));
+                hist.push(format!(
+                    "+{}ms server unreachable for {ms} ms (connections refused)",
+                    t_stim.elapsed().as_millis()
+                ));
             }
             4 if r.chance(1, 3) => {
                 let ms = r.range(100, 350);
-                ctl.lock().unwrap().blackout_until = Some(Instant::now() + Duration::from_millis(ms));
-                hist.push(format!("+{}ms outage of {ms} ms", t_stim.elapsed().as_millis()));
+                ctl.lock().unwrap().blackout_until =
+                    Some(Instant::now() + Duration::from_millis(ms));
+                hist.push(format!(
+                    "+{}ms outage of {ms} ms",
+                    t_stim.elapsed().as_millis()
+                ));
             }
             _ => {}
         }
@@ -551,7 +820,11 @@ async fn scenario(a: &ShardArgs, idx: u64) {
         let g = ctl.lock().unwrap();
         (g.connections, g.cuts)
     };
-    hist.push(format!("+{}ms stimulus stopped: {} updates, {nconn} connections, {ncuts} cuts", t_stim.elapsed().as_millis(), updates_done.load(Ordering::Relaxed)));
+    hist.push(format!(
+        "+{}ms stimulus stopped: {} updates, {nconn} connections, {ncuts} cuts",
+        t_stim.elapsed().as_millis(),
+        updates_done.load(Ordering::Relaxed)
+    ));
     // ---- wait for convergence
     let mut log: Vec<Rec> = vec![];
     let deadline = Instant::now() + Duration::from_secs(40);
@@ -595,9 +868,17 @@ async fn scenario(a: &ShardArgs, idx: u64) {
                     continue;
                 }
                 let h = &g.hist[&(*t, *i)][*pos];
-                let seen = log.iter().any(|rc| rc.is_event && rc.ptype == PTYPES[*t] && rc.index == *i && matches_hist(rc, h, *t) && (*t == 7 || rc.time.map(|x| x.1) == Some(h.time)));
+                let seen = log.iter().any(|rc| {
+                    rc.is_event
+                        && rc.ptype == PTYPES[*t]
+                        && rc.index == *i
+                        && matches_hist(rc, h, *t)
+                        && (*t == 7 || rc.time.map(|x| x.1) == Some(h.time))
+                });
                 if !seen {
-                    why_not = format!("event {id} of point ({t}, {i}) value {h:?} not delivered as an event");
+                    why_not = format!(
+                        "event {id} of point ({t}, {i}) value {h:?} not delivered as an event"
+                    );
                     break;
                 }
             }
@@ -613,7 +894,10 @@ async fn scenario(a: &ShardArgs, idx: u64) {
         tokio::time::sleep(Duration::from_millis(40)).await;
     }
     let conv_ms = t_stop.elapsed().as_millis();
-    hist.push(format!("converged={converged} after {conv_ms} ms; {} records received; {why_not}", log.len()));
+    hist.push(format!(
+        "converged={converged} after {conv_ms} ms; {} records received; {why_not}",
+        log.len()
+    ));
     // ---- judge
     out::eval(1);
     let mut violations: Vec<(String, String, String)> = vec![];
@@ -622,15 +906,37 @@ async fn scenario(a: &ShardArgs, idx: u64) {
         // nothing fabricated
         for rc in &log {
             let Some(t) = PTYPES.iter().position(|p| *p == rc.ptype) else {
-                violations.push(("fabricated".into(), format!("{:?}", rc.ptype), format!("record of a type that the outstation does not have: {rc:?}")));
+                violations.push((
+                    "fabricated".into(),
+                    format!("{:?}", rc.ptype),
+                    format!("record of a type that the outstation does not have: {rc:?}"),
+                ));
                 continue;
             };
             match g.hist.get(&(t, rc.index)) {
-                None => violations.push(("fabricated".into(), format!("t{t}-unknown-point"), format!("record for a point that does not exist: {rc:?}"))),
+                None => violations.push((
+                    "fabricated".into(),
+                    format!("t{t}-unknown-point"),
+                    format!("record for a point that does not exist: {rc:?}"),
+                )),
                 Some(hs) => {
                     if !hs.iter().any(|h| matches_hist(rc, h, t)) {
-                        let elsewhere = g.hist.iter().any(|(k, hs)| *k != (t, rc.index) && hs.iter().any(|h| matches_hist(rc, h, k.0)));
-                        violations.push((if elsewhere { "cross_wired" } else { "fabricated" }.into(), format!("t{t}|{}", if rc.is_event { "event" } else { "static" }), format!("point ({t}, {}) never had the value that was reported: {rc:?}", rc.index)));
+                        let elsewhere = g.hist.iter().any(|(k, hs)| {
+                            *k != (t, rc.index) && hs.iter().any(|h| matches_hist(rc, h, k.0))
+                        });
+                        violations.push((
+                            if elsewhere {
+                                "cross_wired"
+                            } else {
+                                "fabricated"
+                            }
+                            .into(),
+                            format!("t{t}|{}", if rc.is_event { "event" } else { "static" }),
+                            format!(
+                                "point ({t}, {}) never had the value that was reported: {rc:?}",
+                                rc.index
+                            ),
+                        ));
                     } else {
                         out::count("records_match_history", 1);
                     }
@@ -639,21 +945,47 @@ async fn scenario(a: &ShardArgs, idx: u64) {
         }
         // commands: reported success means executed exactly once; nothing is ever executed twice
         for (i, v, ok) in &issued {
-            let n = g.executed.iter().filter(|e| e.0 == 6 && e.1 == *i && e.2 == *v).count();
+            let n = g
+                .executed
+                .iter()
+                .filter(|e| e.0 == 6 && e.1 == *i && e.2 == *v)
+                .count();
             if n > 1 {
-                violations.push(("command_executed_twice".into(), "analog-output".into(), format!("analog output {v} for index {i} was executed {n} times")));
+                violations.push((
+                    "command_executed_twice".into(),
+                    "analog-output".into(),
+                    format!("analog output {v} for index {i} was executed {n} times"),
+                ));
             } else if *ok && n != 1 {
                 violations.push(("command_success_without_execution".into(), "analog-output".into(), format!("operate() returned Ok for analog output {v} index {i} but the outstation executed it {n} times")));
             } else {
-                out::count(if *ok { "commands_ok_executed_once" } else { "commands_failed_executed_at_most_once" }, 1);
+                out::count(
+                    if *ok {
+                        "commands_ok_executed_once"
+                    } else {
+                        "commands_failed_executed_at_most_once"
+                    },
+                    1,
+                );
             }
         }
         if !converged {
-            let what = if why_not.contains("not delivered as an event") { "event_lost" } else { "no_convergence" };
-            violations.push((what.into(), format!("unsol{}|periodic{}", unsol as u8, periodic as u8), format!("40 s after the stimulus stopped: {why_not}")));
+            let what = if why_not.contains("not delivered as an event") {
+                "event_lost"
+            } else {
+                "no_convergence"
+            };
+            violations.push((
+                what.into(),
+                format!("unsol{}|periodic{}", unsol as u8, periodic as u8),
+                format!("40 s after the stimulus stopped: {why_not}"),
+            ));
         } else {
             out::count("converged", 1);
-            out::count("events_delivered", (g.events.len() - g.discarded.len()) as u64);
+            out::count(
+                "events_delivered",
+                (g.events.len() - g.discarded.len()) as u64,
+            );
             out::count("events_overflow_discarded", g.discarded.len() as u64);
             out::count("commands_executed", g.commands);
             out::count("convergence_ms_total", conv_ms as u64);
@@ -673,9 +1005,27 @@ async fn scenario(a: &ShardArgs, idx: u64) {
     violations.sort();
     violations.dedup_by(|a, b| a.0 == b.0 && a.1 == b.1);
     for (rule, sig, why) in &violations {
-        out::violation(P, &format!("C02.{rule}"), sig, J::obj(vec![("why", J::s(why.clone())), ("history", J::arr(hist.iter().cloned()))]), J::obj(vec![("check", J::s("c02")), ("seed", J::U(a.seed)), ("shard", J::U(a.shard)), ("nshards", J::U(a.nshards)), ("scenario", J::U(idx))]));
+        out::violation(
+            P,
+            &format!("C02.{rule}"),
+            sig,
+            J::obj(vec![
+                ("why", J::s(why.clone())),
+                ("history", J::arr(hist.iter().cloned())),
+            ]),
+            J::obj(vec![
+                ("check", J::s("c02")),
+                ("seed", J::U(a.seed)),
+                ("shard", J::U(a.shard)),
+                ("nshards", J::U(a.nshards)),
+                ("scenario", J::U(idx)),
+            ]),
+        );
     }
-    out::distinct(&format!("unsol{}/small{}/{mode:?}/evbuf{evbuf}/periodic{}", unsol as u8, small as u8, periodic as u8));
+    out::distinct(&format!(
+        "unsol{}/small{}/{mode:?}/evbuf{evbuf}/periodic{}",
+        unsol as u8, small as u8, periodic as u8
+    ));
     if out::sample_count() < 2 {
         out::sample(J::obj(vec![("history", J::arr(hist.iter().cloned()))]));
     }
@@ -695,7 +1045,10 @@ async fn scenario(a: &ShardArgs, idx: u64) {
 }
 
 pub fn run(a: &ShardArgs) -> Result<(), String> {
-    let only: Option<u64> = a.replay.as_ref().and_then(|p| super::common::replay_scenario(p));
+    let only: Option<u64> = a
+        .replay
+        .as_ref()
+        .and_then(|p| super::common::replay_scenario(p));
     let n = a.n(128);
     for idx in 0..n {
         if idx % a.nshards != a.shard {
@@ -707,11 +1060,33 @@ pub fn run(a: &ShardArgs) -> Result<(), String> {
             }
         }
         out::progress(&format!("scenario {idx}"));
-        let rt = tokio::runtime::Builder::new_multi_thread().worker_threads(3).enable_all().build().map_err(|e| format!("runtime: {e}"))?;
+        let rt = tokio::runtime::Builder::new_multi_thread()
+            .worker_threads(3)
+            .enable_all()
+            .build()
+            .map_err(|e| format!("runtime: {e}"))?;
         rt.block_on(scenario(a, idx));
         rt.shutdown_timeout(Duration::from_secs(3));
         for p in crate::verif::util::take_panics() {
-            out::violation(P, "C02.panic", &crate::verif::util::norm_location(&p.location), J::obj(vec![("why", J::s(format!("panic {} at {} (thread {})", p.message, p.location, p.thread)))]), J::obj(vec![("check", J::s("c02")), ("seed", J::U(a.seed)), ("shard", J::U(a.shard)), ("nshards", J::U(a.nshards)), ("scenario", J::U(idx))]));
+            out::violation(
+                P,
+                "C02.panic",
+                &crate::verif::util::norm_location(&p.location),
+                J::obj(vec![(
+                    "why",
+                    J::s(format!(
+                        "panic {} at {} (thread {})",
+                        p.message, p.location, p.thread
+                    )),
+                )]),
+                J::obj(vec![
+                    ("check", J::s("c02")),
+                    ("seed", J::U(a.seed)),
+                    ("shard", J::U(a.shard)),
+                    ("nshards", J::U(a.nshards)),
+                    ("scenario", J::U(idx)),
+                ]),
+            );
         }
     }
     Ok(())
